@@ -42,6 +42,9 @@ def emit(sh, k, twin, ctx="single", consts=None, name=None):
         B = "\t\tif o == 0 {\n\t\t\titers++\n\t\t}\n"
     pay = "\t\ts += int(i)*2 + 1\n"
     cont = "\t\tif i%3 == 0 {\n\t\t\tcontinue\n\t\t}\n" if sh["extra"] == "cont" else ""
+    if sh["extra"] == "innerexit":
+        # an inner loop that leaves the OUTER loop (by return) when i == 5
+        cont = "\t\tfor j := 0; j < 2; j++ {\n\t\t\tif int(i) == 5 && j == 1 {\n\t\t\t\treturn %s\n\t\t\t}\n\t\t}\n" % ("hdr, iters" if twin else "s")
     if sh["extra"] == "condupd":
         updblock = "\t\tif s%%2 == 0 {\n\t\t\t%s\n\t\t} else {\n\t\t\t%s\n\t\t}\n" % (upd, upd)
     else:
@@ -53,7 +56,11 @@ def emit(sh, k, twin, ctx="single", consts=None, name=None):
     ret = "\treturn hdr, iters\n}\n" if twin else "\treturn s\n}\n"
     pre = "\ts := 0\n"
     body = ""
-    if sh["extra"] == "partupd":
+    if sh["extra"] == "skiptest":
+        # `continue` BEFORE the exit test: the test is not evaluated on every iteration
+        test = ("if !(%s) {" % c) if sh["stay"] else ("if %s {" % c)
+        body += "\ti := a\n\tfor ; ; %s {\n%s\t\tif i%%2 == 0 {\n\t\t\tcontinue\n\t\t}\n\t\t%s\n\t\t\tbreak\n\t\t}\n%s%s\t}\n" % (upd, H, test, B, pay)
+    elif sh["extra"] == "partupd":
         # post-less loop with two back edges: only the `continue` arm updates i
         test = ("if !(%s) {" % c) if sh["stay"] else ("if %s {" % c)
         inner = "%s\t\t%s\n\t\t\tbreak\n\t\t}\n%s\t\tc++\n\t\tif c%%3 != 0 {\n\t\t\t%s\n\t\t\tcontinue\n\t\t}\n%s" % (H, test, B, upd, pay)
